@@ -123,6 +123,9 @@ def mk_value(spec):
         return spec[1]
     if k == "none":
         return None
+    if k == "mdir":
+        from fim.slivers.network_service import MirrorDirection
+        return MirrorDirection[spec[1]]
     raise ValueError("bad value spec %r" % (spec,))
 
 
@@ -160,6 +163,59 @@ def prop_args(kind, kw):
             if k not in base or base[k] != d[k]:
                 out.append([k, d[k]])
     return out
+
+
+def prop_args_values(kind, kv):
+    """as prop_args, for keyword values that are already objects: list of (name, value)"""
+    cls, to_dict = _sliver_codec(kind)
+    base = to_dict(cls())
+    out = []
+    for name, val in kv:
+        s = cls()
+        try:
+            s.set_properties(**{name: val})
+        except Exception as e:
+            out.append(["!", err_kind(e)])
+            continue
+        d = to_dict(s)
+        for k in d:
+            if k not in base or base[k] != d[k]:
+                out.append([k, d[k]])
+    return out
+
+
+def vlan_table(topo):
+    """Labels graph property (JSON text) -> vlan, for every ConnectionPoint of the graph whose labels carry a truthy vlan;
+    decoded by the implementation's own sliver codec"""
+    from fim.graph.abc_property_graph import ABCPropertyGraph as G
+    gm = topo.graph_model
+    g = gm.storage.extract_graph(gm.graph_id)
+    out = {}
+    if g is None:
+        return []
+    for _, d in g.nodes(data=True):
+        js = d.get("Labels")
+        if d.get("Class") != "ConnectionPoint" or js is None or js in out:
+            continue
+        try:
+            lab = G.interface_sliver_from_graph_properties_dict(dict(d)).labels
+            if lab and lab.vlan:
+                out[js] = str(lab.vlan)
+        except Exception:
+            pass
+    return sorted([k, v] for k, v in out.items())
+
+
+def cache_handles(op):
+    """keys (in the op) of the handles whose interface cache a call may change, in the order (cache, cache2)"""
+    k = op["op"]
+    if k in ("connect", "disconnect", "ns_add_interface"):
+        return ["svc"]
+    if k in ("add_child_interface", "remove_child_interface"):
+        return ["port"]
+    if k in ("peer", "unpeer"):
+        return ["svc", "other"]
+    return []
 
 
 def kwargs_of(kw):
@@ -451,6 +507,100 @@ class Session:
                 line["kind"] = h.kind
                 call = lambda: h.obj.rename(op["name"])
                 post = lambda r: (None, None, None)
+            elif k == "add_child_interface":
+                port = H("port")
+                line["port"] = port.node_id
+                line["cache"] = _cache(port)
+                kwv = kwargs_of(op.get("kw", []))
+                lab = kwv.get("labels")
+                try:
+                    if lab and lab.vlan:
+                        line["vlan"] = str(lab.vlan)
+                except AttributeError:
+                    pass
+                line["vlan_tbl"] = vlan_table(t)
+                # what the call does to the caller's Labels before the sliver sees them: local_name of the parent port
+                import copy as _copy
+                shown = dict(kwv)
+                try:
+                    with det_uuids():
+                        pl = port.labels
+                    if pl and lab is not None and hasattr(lab, "local_name"):
+                        lab2 = _copy.deepcopy(lab)
+                        lab2.local_name = pl.local_name
+                        shown["labels"] = lab2
+                except Exception:
+                    pass
+                line["props"] = prop_args_values("iface", [(n, shown[n]) for n in kwv])
+                args = dict(name=op["name"], **kwv)
+                if op.get("nid") is not None:
+                    args["node_id"] = op["nid"]
+                call = lambda: port.add_child_interface(**args)
+                post = lambda r: (self.add_handle("iface", r), r.node_id, _cache(port))
+            elif k == "remove_child_interface":
+                port = H("port")
+                line["port"] = port.node_id
+                line["cache"] = _cache(port)
+                call = lambda: port.remove_child_interface(name=op["name"])
+                post = lambda r: (None, None, _cache(port))
+            elif k in ("peer", "unpeer"):
+                svc = H("svc")
+                line["svc"] = svc.node_id
+                line["sname"] = svc.name
+                line["cache"] = _cache(svc)
+                if op["other"] == BOGUS:
+                    other = "bogus-object"
+                else:
+                    other = H("other")
+                    line["other"] = {"nid": other.node_id, "name": other.name, "cache": _cache(other)}
+                if k == "peer":
+                    line["props"] = prop_args("iface", op.get("kw", []))
+                    kwv = kwargs_of(op.get("kw", []))
+                    call = lambda: svc.peer(other, **kwv)
+                else:
+                    call = lambda: svc.unpeer(other)
+                post = lambda r: (None, None, _cache(svc), _cache(other) if other != "bogus-object" else None)
+            elif k == "add_port_mirror":
+                w, o = (None, None) if op.get("to") is None else self._if_arg(op["to"])
+                kw = [["mirror_port", ["str", op.get("from_name")] if op.get("from_name") is not None else ["none"]],
+                      ["mirror_vlan", ["str", op["from_vlan"]] if op.get("from_vlan") is not None else ["none"]],
+                      ["mirror_direction", ["mdir", op.get("direction", "Both")]]] + op.get("kw", [])
+                line["nstype"] = "PortMirror"
+                line["props"] = prop_args("svc", kw)
+                line["ifs"] = [w] if op.get("to") is not None else []
+                line["to_ok"] = bool(o)
+                line["from_ok"] = bool(op.get("from_name"))
+                args = dict(name=op["name"], from_interface_name=op.get("from_name"), to_interface=o,
+                            from_interface_vlan=op.get("from_vlan"), direction=mk_value(["mdir", op.get("direction", "Both")]),
+                            **kwargs_of(op.get("kw", [])))
+                if op.get("nid") is not None:
+                    args["node_id"] = op["nid"]
+                call = lambda: t.add_port_mirror_service(**args)
+                post = lambda r: (self.add_handle("svc", r), r.node_id, _cache(r))
+            elif k == "add_component_mt":
+                import fim.slivers.component_catalog as cc
+                cc.ComponentCatalog()
+                mt = cc.ComponentModelType[op["model_type"]]
+                line["parent"] = H("parent").node_id
+                line["props"] = prop_args("comp", op.get("kw", []))
+                line["mt_model"] = cc.ComponentModelTypeMap[mt]["Model"]
+                line["mt_type"] = cc.ComponentModelTypeMap[mt]["Type"]
+                args = dict(name=op["name"], model_type=mt, **kwargs_of(op.get("kw", [])))
+                if op.get("nid") is not None:
+                    args["node_id"] = op["nid"]
+                if op.get("ctype") is not None:
+                    args["ctype"] = _enum(ComponentType, op["ctype"])
+                if op.get("model") is not None:
+                    args["model"] = op["model"]
+                if op.get("ns_nid") is not None:
+                    args["network_service_node_id"] = op["ns_nid"]
+                if op.get("if_nids") is not None:
+                    args["interface_node_ids"] = list(op["if_nids"])
+                if op.get("n_labels") is not None:
+                    from fim.slivers.capacities_labels import Labels
+                    args["interface_labels"] = [Labels() for _ in range(op["n_labels"])]
+                call = lambda: H("parent").add_component(**args)
+                post = lambda r: (self.add_handle("comp", r), r.node_id, None)
             else:
                 raise ValueError("unknown op %r" % k)
         except KeyError as e:
@@ -460,8 +610,9 @@ class Session:
                 r = call()
             except Exception as e:
                 return ["err", err_kind(e)], line
-            hk, rid, cache = post(r)
-        return ["ok", rid, cache, hk], line
+            pr = post(r)
+            hk, rid, cache = pr[:3]
+        return ["ok", rid, cache, hk] + list(pr[3:4]), line
 
 
 def lean_line(line):
@@ -474,7 +625,7 @@ def parse_reply(txt):
     if j[0] == "ok":
         if j[1] is None:
             return ["ok", None, None], None
-        return ["ok", j[1].get("ret"), j[1].get("cache")], canon_snap(j[1]["snap"])
+        return ["ok", j[1].get("ret"), j[1].get("cache")] + ([j[1]["cache2"]] if "cache2" in j[1] else []), canon_snap(j[1]["snap"])
     if len(j) >= 3:
         return ["err", j[1]], canon_snap(j[2])
     return ["err", j[1]], None
@@ -557,9 +708,13 @@ def free_ifaces(sess):
     return out
 
 
-def gen_op(rng, sess, names, fault=0.0):
+MODEL_TYPES = ["SmartNIC_ConnectX_6", "SmartNIC_ConnectX_5", "FPGA_Xilinx_U280", "GPU_RTX6000", "SharedNIC_ConnectX_6", "NVME_P4510"]
+
+
+def gen_op(rng, sess, names, fault=0.0, ext=False):
     """One building call applicable to the session's state; with probability `fault` a call that should be
-    rejected (the generator says which fault it injected in op["fault"] - informational only)."""
+    rejected (the generator says which fault it injected in op["fault"] - informational only).
+    ext=True adds the calls of the second alphabet (sub-interfaces, peer/unpeer, port mirror, model_type= components)."""
     fl = sess.flavour
     nodes = [h for h in sess.of_kind("node") if sess.alive(h)]
     comps = [h for h in sess.of_kind("comp") if sess.alive(h)]
@@ -594,9 +749,147 @@ def gen_op(rng, sess, names, fault=0.0):
         menu += ["remove_facility"]
     if any(_node_type(h) == "Switch" for h in nodes):
         menu += ["remove_switch"]
+    if ext:
+        ded = [h for h in ifaces if _if_type(h) == "DedicatedPort"]
+        with_kids = [h for h in ded if getattr(h.obj, "_interfaces", None)]
+        if ded:
+            menu += ["add_child_interface"] * 4
+        if with_kids:
+            menu += ["remove_child_interface"]
+        if len(top_svcs) >= 2:
+            menu += ["peer"] * 2 + ["unpeer"]
+        if free and fl == "exp":
+            menu += ["add_port_mirror"]
+        if nodes:
+            menu += ["add_component_mt"] * 2
     k = rng.choice(menu)
     op = {"op": k}
     existing_node_names = [h.obj.name for h in nodes]
+    if k == "add_child_interface":
+        p = rng.choice(ded)
+        vl = str(rng.randrange(100, 130))
+        op.update(port=p.key, name=names.new("sub"), nid=names.nid(fl), kw=[["labels", ["lab", {"vlan": vl}]]])
+        if rng.random() < 0.4:
+            op["kw"].append(["capacities", ["cap", {"bw": rng.choice([1, 10])}]])
+        if bad:
+            f = rng.choice(["dup-name", "dup-vlan", "no-labels", "no-vlan", "stale-port", "not-dedicated", "dup-id", "bad-prop", "bad-name"])
+            op["fault"] = f
+            kids = getattr(p.obj, "_interfaces", None) or []
+            if f == "dup-name" and kids:
+                op["name"] = rng.choice(kids).name
+            elif f == "dup-vlan" and kids:
+                try:
+                    op["kw"][0] = ["labels", ["lab", {"vlan": str(rng.choice(kids).labels.vlan)}]]
+                except Exception:
+                    pass
+            elif f == "no-labels":
+                op["kw"] = op["kw"][1:]
+            elif f == "no-vlan":
+                op["kw"][0] = ["labels", ["lab", {"local_name": "x"}]]
+            elif f == "stale-port" and any(sess.handles[x].kind == "iface" for x in stale):
+                op["port"] = rng.choice([x for x in stale if sess.handles[x].kind == "iface"])
+            elif f == "not-dedicated":
+                nd = [h for h in ifaces if _if_type(h) != "DedicatedPort"]
+                if nd:
+                    op["port"] = rng.choice(nd).key
+            elif f == "dup-id" and ifaces:
+                op["nid"] = rng.choice(ifaces).obj.node_id
+            elif f == "bad-prop":
+                op["kw"].insert(rng.randrange(len(op["kw"]) + 1), rng.choice(BAD_KW["iface"][:2]))
+            elif f == "bad-name":
+                op["name"] = rng.choice(["bad/name", ""])
+        return op
+    if k == "remove_child_interface":
+        p = rng.choice(with_kids)
+        op.update(port=p.key, name=rng.choice(p.obj._interfaces).name if not bad else "no-such-child")
+        return op
+    if k in ("peer", "unpeer"):
+        a, b = rng.sample(top_svcs, 2)
+        op.update(svc=a.key, other=b.key)
+        if k == "peer":
+            op["kw"] = pick_kw(rng, "iface")
+        if k == "unpeer" and not bad:
+            # prefer a pair that does peer
+            pairs = []
+            for x in top_svcs:
+                for y in top_svcs:
+                    if x is not y and any(i.name == x.obj.name + "-" + y.obj.name for i in (x.obj._interfaces or [])):
+                        pairs.append((x, y))
+            if pairs and rng.random() < 0.8:
+                a, b = rng.choice(pairs)
+                if rng.random() < 0.5:
+                    a, b = b, a
+                op.update(svc=a.key, other=b.key)
+        if bad:
+            f = rng.choice(["bogus-other", "stale-other", "stale-self", "bad-prop", "self"])
+            op["fault"] = f
+            st_svc = [x for x in stale if sess.handles[x].kind == "svc"]
+            if f == "bogus-other":
+                op["other"] = BOGUS
+            elif f == "stale-other" and st_svc:
+                op["other"] = rng.choice(st_svc)
+            elif f == "stale-self" and st_svc:
+                op["svc"] = rng.choice(st_svc)
+            elif f == "bad-prop" and k == "peer":
+                op["kw"] = pick_kw(rng, "iface", bad_at=rng.randrange(0, 2), n=1)
+            elif f == "self":
+                try:        # another handle on the same service (the same handle object would alias the two caches)
+                    op["other"] = sess.fresh("svc", a.obj.name)
+                except Exception:
+                    pass
+        return op
+    if k == "add_port_mirror":
+        to = rng.choice(free)
+        op.update(name=names.new("pm"), nid=names.nid(fl), to=to.key, from_name=rng.choice(["p1", "nic1-p1", "e0"]),
+                  from_vlan=rng.choice([None, "100"]), direction=rng.choice(["Both", "RX_Only", "TX_Only"]), kw=pick_kw(rng, "svc", n=rng.choice([0, 1])))
+        if bad:
+            f = rng.choice(["no-to", "no-from", "connected-iface", "bogus-iface", "dup-name", "dup-id", "bad-prop", "stale-iface"])
+            op["fault"] = f
+            if f == "no-to":
+                op["to"] = None
+            elif f == "no-from":
+                op["from_name"] = rng.choice([None, ""])
+            elif f == "connected-iface" and [h for h in ifaces if _is_connected(h)]:
+                op["to"] = rng.choice([h for h in ifaces if _is_connected(h)]).key
+            elif f == "bogus-iface":
+                op["to"] = BOGUS
+            elif f == "dup-name" and svcs:
+                op["name"] = rng.choice(svcs).obj.name
+            elif f == "dup-id" and svcs:
+                op["nid"] = rng.choice(svcs).obj.node_id
+            elif f == "bad-prop":
+                op["kw"] = pick_kw(rng, "svc", bad_at=0, n=1)
+            elif f == "stale-iface" and any(sess.handles[s].kind == "iface" for s in stale):
+                op["to"] = rng.choice([s for s in stale if sess.handles[s].kind == "iface"])
+        return op
+    if k == "add_component_mt":
+        p = rng.choice(nodes)
+        mt = rng.choice(MODEL_TYPES)
+        op.update(parent=p.key, name=names.new("c"), nid=names.nid(fl), model_type=mt, kw=pick_kw(rng, "comp"))
+        r = rng.random()
+        if r < 0.25:        # ctype / model given as well: the model type wins, the substrate guard looks at ctype
+            ct, md = rng.choice(COMPONENTS)
+            op.update(ctype=ct, model=md)
+        if fl == "sub" and rng.random() < 0.7:
+            nif = _mt_ifaces(mt)
+            op.update(ns_nid=names.nid(fl, True), if_nids=[names.nid(fl, True) for _ in range(nif)], n_labels=nif)
+        if bad:
+            f = rng.choice(["dup-name", "dup-id", "bad-prop", "stale-parent", "dup-iface-id", "short-ids"])
+            op["fault"] = f
+            sib = _child_names(p)
+            if f == "dup-name" and sib:
+                op["name"] = rng.choice(sib)
+            elif f == "dup-id" and comps:
+                op["nid"] = rng.choice(comps).obj.node_id
+            elif f == "bad-prop":
+                op["kw"] = pick_kw(rng, "comp", bad_at=rng.randrange(0, 3), n=2)
+            elif f == "stale-parent" and any(sess.handles[s].kind == "node" for s in stale):
+                op["parent"] = rng.choice([s for s in stale if sess.handles[s].kind == "node"])
+            elif f == "dup-iface-id" and op.get("if_nids") and ifaces:
+                op["if_nids"][rng.randrange(len(op["if_nids"]))] = rng.choice(ifaces).obj.node_id
+            elif f == "short-ids" and op.get("if_nids"):
+                op["if_nids"] = op["if_nids"][:-1]
+        return op
     if k == "add_node":
         op.update(name=names.new("n"), nid=names.nid(fl), site=rng.choice(SITES), ntype=rng.choice(NODE_TYPES), kw=pick_kw(rng, "node"))
         if bad:
@@ -851,6 +1144,20 @@ def gen_op(rng, sess, names, fault=0.0):
     return op
 
 
+def _if_type(h):
+    try:
+        return str(h.obj.type)
+    except Exception:
+        return None
+
+
+def _mt_ifaces(mt_name):
+    import fim.slivers.component_catalog as cc
+    cc.ComponentCatalog()
+    e = cc.ComponentModelTypeMap[cc.ComponentModelType[mt_name]]
+    return len(e.get("Interfaces", {}))
+
+
 def _is_top(sess, h):
     try:
         return sess.topo.get_owner_node(h.obj) is None
@@ -905,7 +1212,7 @@ def after_success(sess, op, outcome):
     """pick up interface handles that a successful creation made reachable (fresh lookups through the API)"""
     if outcome[0] != "ok" or outcome[3] is None:
         return
-    if op["op"] in ("add_component", "add_facility", "add_switch"):
+    if op["op"] in ("add_component", "add_facility", "add_switch", "add_component_mt"):
         try:
             sess.harvest(outcome[3])
         except Exception:
